@@ -25,7 +25,7 @@ STORE_CALLS = {"model_table"}          # helpers that write the binding
 DESTRUCTIVE_CALLS = {"remove", "drop_table"}
 
 
-def _cond_facts(cond: ast.AST, label, key: str, binding: str, aliases: Set[str] = frozenset()) -> Set[str]:
+def _cond_facts(cond: ast.AST, label, key: str, binding: str, aliases: Set[str] = frozenset(), cls=None) -> Set[str]:
     """facts established by taking branch `label` of `cond`.  `aliases`: locals / calls that denote the keys of the binding"""
     facts: Set[str] = set()
 
@@ -44,7 +44,7 @@ def _cond_facts(cond: ast.AST, label, key: str, binding: str, aliases: Set[str] 
             # a failed conjunction / satisfied disjunction: one of the operands decided; if each alternative
             # yields 'allowed' or 'absent', the disjunction of the two is what S1 needs
             if (isinstance(e.op, ast.And) and not truth) or (isinstance(e.op, ast.Or) and truth):
-                alts = [_cond_facts(x, truth, key, binding, aliases) for x in e.values]
+                alts = [_cond_facts(x, truth, key, binding, aliases, cls) for x in e.values]
                 if alts and all(("allowed" in a) or ("absent" in a) for a in alts):
                     facts.add("allowed-or-absent")
             return
@@ -63,6 +63,16 @@ def _cond_facts(cond: ast.AST, label, key: str, binding: str, aliases: Set[str] 
                     facts.add("auto" if truth else "given")
                 elif isinstance(e.ops[0], ast.IsNot):
                     facts.add("given" if truth else "auto")
+        # a predicate method of the class: self.<p>(key) whose single return is an expression over its parameter
+        if cls is not None and isinstance(e, ast.Call) and isinstance(e.func, ast.Attribute) and unparse(e.func.value) == "self" and len(e.args) == 1 \
+                and isinstance(e.args[0], ast.Name) and e.args[0].id == key:
+            h = cls.find_method(e.func.attr)
+            if h is not None:
+                hp = [p_ for p_ in h.params() if p_ != "self"]
+                rets_ = [r.value for r in ast.walk(h.node) if isinstance(r, ast.Return) and r.value is not None]
+                if len(hp) == 1 and len(rets_) == 1:
+                    facts.update(_cond_facts(rets_[0], truth, hp[0], binding, aliases | _keys_aliases(cls, binding), cls))
+            return
         if isinstance(e, ast.Call) and isinstance(e.func, ast.Attribute) and e.func.attr == "table_exists" \
                 and any(isinstance(a, ast.Name) and a.id == key for a in e.args):
             facts.add("db-present" if truth else "db-absent")
@@ -72,10 +82,43 @@ def _cond_facts(cond: ast.AST, label, key: str, binding: str, aliases: Set[str] 
     return facts
 
 
-def _effects(m, binding: str):
+def _helper_body_has(cls, name: str, binding: str):
+    """what a method self.<name>(...) of the concrete class does: {'store', 'table-write', 'fallible'} (one level, for template methods)"""
+    if cls is None:
+        return set()
+    h = cls.find_method(name)
+    if h is None:
+        return set()
+    out = set()
+    for st in ast.walk(h.node):
+        if isinstance(st, ast.Assign):
+            for t in st.targets:
+                if isinstance(t, ast.Subscript) and unparse(t.value) == f"self.{binding}":
+                    out.add("store")
+        if isinstance(st, ast.Call) and isinstance(st.func, ast.Attribute):
+            if st.func.attr in ("insert_table", "create_table"):
+                out |= {"table-write", "fallible"}
+            if st.func.attr in ("eval",):
+                out.add("fallible")
+            if st.func.attr in STORE_CALLS and unparse(st.func.value) == "self":
+                out.add("store")
+    return out
+
+
+def _effects(m, binding: str, cls=None):
     """(node-stmt, kind, description) for store/delete effects on the binding and table-creating calls"""
     out = []
     for st in ast.walk(m.node):
+        # a template method: self.<hook>(...) implemented by the concrete class
+        if isinstance(st, (ast.Expr, ast.Assign, ast.Return)) and isinstance(getattr(st, "value", None), ast.Call):
+            c0 = st.value
+            if isinstance(c0.func, ast.Attribute) and unparse(c0.func.value) == "self" and c0.func.attr not in STORE_CALLS | DESTRUCTIVE_CALLS \
+                    and c0.func.attr not in ("describe", "keys", "retrieve"):
+                has = _helper_body_has(cls, c0.func.attr, binding)
+                if "store" in has:
+                    out.append((st, "store", unparse(c0.func) + "()"))
+                if "table-write" in has:
+                    out.append((st, "table-write", unparse(c0.func) + "()"))
         if isinstance(st, ast.Assign):
             for t in st.targets:
                 if isinstance(t, ast.Subscript) and unparse(t.value) == f"self.{binding}":
@@ -129,7 +172,7 @@ def _helper_summary(cls, hname: str, binding: str) -> Optional[Set[str]]:
             for (nid, label) in path[:-1]:
                 n = g.nodes[nid]
                 if n.kind == "test":
-                    since |= _cond_facts(n.cond, label, rv, binding, aliases)
+                    since |= _cond_facts(n.cond, label, rv, binding, aliases, cls)
                 elif n.kind == "stmt" and isinstance(n.stmt, ast.Assign) and any(isinstance(t, ast.Name) and t.id == rv for t in n.stmt.targets):
                     since = set()
             summary = since if summary is None else (summary & since)
@@ -140,7 +183,7 @@ def _check_writer(res, cname, m, binding, cls=None):
     g = cfgmod.build(m.node)
     key = "key"
     aliases = _keys_aliases(cls, binding) if cls is not None else set()
-    effects = _effects(m, binding)
+    effects = _effects(m, binding, cls)
     writes = [(st, k, dsc) for (st, k, dsc) in effects if k in ("store", "table-write")]
     if not writes:
         raise AnalysisError(f"{cname}.{m.name}: no store effect on self.{binding} found")
@@ -158,7 +201,7 @@ def _check_writer(res, cname, m, binding, cls=None):
             for (nid, label) in path[:-1]:
                 n = g.nodes[nid]
                 if n.kind == "test":
-                    f = _cond_facts(n.cond, label, key, binding, aliases)
+                    f = _cond_facts(n.cond, label, key, binding, aliases, cls)
                     facts |= f
                     since_assign |= f
                     if "auto" in f:
@@ -201,7 +244,8 @@ def _check_writer(res, cname, m, binding, cls=None):
             res.ok("C20-S2", f"{inst}: auto-generated keys are tested for freshness on every path")
     # ---- S3 store after success
     fallible = [n for n in g.stmt_nodes(("stmt", "return")) if any(
-        isinstance(c, ast.Call) and isinstance(c.func, ast.Attribute) and c.func.attr in ("eval", "insert_table", "create_table")
+        isinstance(c, ast.Call) and isinstance(c.func, ast.Attribute) and (c.func.attr in ("eval", "insert_table", "create_table")
+                                                                          or (unparse(c.func.value) == "self" and "fallible" in _helper_body_has(cls, c.func.attr, binding)))
         for c in ast.walk(n.stmt))]
     if not fallible:
         if m.name == "execute":
@@ -277,7 +321,7 @@ def run(program, res, tier):
     for (mod, cname, binding) in SPACES:
         cls = program.cls(mod, cname)
         for mname in ("insert", "execute"):
-            m = cls.methods.get(mname)
+            m = cls.methods.get(mname) or cls.find_method(mname)   # a template method of the base class is analysed for this class's hooks
             if m is None:
                 raise AnalysisError(f"anchor vanished: {cname}.{mname}")
             res.analysed(m)
